@@ -28,6 +28,9 @@ CLAIMS = {
  "C16": ("consistent-lockset (guarded-by) analysis over own code: interprocedural must-lockset with closure/callback contexts and channel happens-before pseudo-locks, freshness (escape) exemption, goroutine-confinement idiom, lock-order graph, blocking-under-lock and unlock-pairing rules",
          "The static counterpart of the race detector over all pairs of accesses: for every location class written from a concurrency root on a shared object, every access reachable from any root must hold a common mutex or fall under an enumerated happens-before idiom. Two genuine races remain and are listed as known findings (Reconcile vs GetClientSecret; updateCA vs tls.Config readers). Library-internal races, actual schedules and deadlocks involving library locks are not decided.",
          "go/ssa model; location classes are type+field (alias-insensitive); run.Group start-up phase is single-threaded; sync.Mutex semantics"),
+ "C02": ("access-path identity between the validated string and the stored ID token (branch facts), field-wise provenance of stored tokens, assumed-atom path feasibility on the validator (audience/nonce), forbidden-API scan over resolved callees, table rules on the header encoder",
+         "Decides that no SetTokenResponse is reachable unless the validator accepted the very ID token being stored and the other token fields come from this check's token-endpoint answer or the stored tokens; that the validator cannot return `valid` without key-set signature verification over the parsed bytes, a client-id audience match and (when required) a present, equal nonce; that no jwx shortcut option is used; and that OK headers are exactly the bound tokens under their own header/preamble. Acceptance of concrete forged tokens is delegated to jwx through the one permitted API shape.",
+         "go/ssa model; jwx WithKeySet+WithInferAlgorithmFromKey contract"),
 }
 
 NOT_YET = "check under construction in this round; see DESIGN.md section 4 for the planned static rules"
